@@ -254,6 +254,9 @@ pub fn emit_case(
     out.inp(&format!("recipe {}", g.recipe));
     write_build(out, &g.build);
     out.inp(&format!("args {}", join(args.iter(), " ")));
+    if let Fault::UnknownAt(k) = fault {
+        out.inp(&format!("fault {}", k));
+    }
     let sh = new_shared(fault);
     let fac = recording_factory(&sh);
     let r = guarded(|| run_query(af, sem, q, cert, enc, args, fac));
@@ -276,12 +279,14 @@ pub struct Cfg {
     /// exhaustive enumeration of small frameworks instead of random generation
     pub exhaustive_n: Option<usize>,
     pub large: bool,
+    /// inject an Unknown answer at each SAT-call position of each query (C17)
+    pub faults: bool,
     pub shard: (usize, usize),
 }
 
 impl Cfg {
     pub fn from_extra(extra: &[String], max_args: usize) -> Cfg {
-        let mut c = Cfg { max_args, queries: vec!["SE".into(), "DC".into(), "DS".into()], certs: vec![false, true], exhaustive_n: None, large: false, shard: (0, 1) };
+        let mut c = Cfg { max_args, queries: vec!["SE".into(), "DC".into(), "DS".into()], certs: vec![false, true], exhaustive_n: None, large: false, faults: false, shard: (0, 1) };
         let mut i = 0;
         while i < extra.len() {
             match extra[i].as_str() {
@@ -289,6 +294,7 @@ impl Cfg {
                 "--cert" => { c.certs = match extra[i + 1].as_str() { "0" => vec![false], "1" => vec![true], _ => vec![false, true] }; i += 2 }
                 "--exhaustive" => { c.exhaustive_n = Some(extra[i + 1].parse().unwrap()); i += 2 }
                 "--large" => { c.large = true; i += 1 }
+                "--faults" => { c.faults = true; i += 1 }
                 "--shard" => { let t: Vec<usize> = extra[i + 1].split('/').map(|x| x.parse().unwrap()).collect(); c.shard = (t[0], t[1]); i += 2 }
                 _ => i += 1,
             }
@@ -374,6 +380,21 @@ pub fn run(rng: &mut Rng, count: usize, thorough: bool, cfg: &Cfg, out: &mut Out
             let certs: Vec<bool> = if *q == "SE" { vec![false] } else { cfg.certs.clone() };
             for enc in enc_list.iter() {
                 for cert in certs.iter() {
+                    if cfg.faults {
+                        // fault-free run to count the SAT calls, then one run per call position
+                        let mut scratch = Out::default();
+                        let k = emit_case(&mut scratch, &g, &af, sem, q, *cert, enc, &args, Fault::None);
+                        let positions: Vec<usize> = if k <= 10 { (0..k).collect() } else {
+                            let mut v: Vec<usize> = vec![0, 1, k - 1, k - 2];
+                            for _ in 0..6 { v.push(rng.below(k)); }
+                            v.sort(); v.dedup(); v
+                        };
+                        for p in positions {
+                            emit_case(out, &g, &af, sem, q, *cert, enc, &args, Fault::UnknownAt(p));
+                            produced += 1;
+                        }
+                        continue;
+                    }
                     emit_case(out, &g, &af, sem, q, *cert, enc, &args, Fault::None);
                     produced += 1;
                 }
